@@ -163,3 +163,37 @@ pub fn dump_container(path: &std::path::Path, indexes: &[&str], with_check: bool
     }
     out
 }
+
+/// C06 with several readers: `threads` threads read each listed content of a freshly opened container at the
+/// same moment, while the background decoder is held back at every chunk (event hook), so that the readers
+/// are asleep on the decoder's condition variable when it publishes or fails. Every read must terminate.
+pub fn mt_pass(path: &std::path::Path, addrs: &[(u16, u32)], threads: usize) -> Vec<String> {
+    use jubako::verif_api as va;
+    va::set_event_callback(Box::new(|kind, _, _, _| {
+        if kind == va::ev::CHUNK {
+            std::thread::sleep(std::time::Duration::from_millis(12));
+        }
+    }));
+    let container = match guard(|| cls(jbk::reader::Container::new(path))) {
+        Ok(c) => std::sync::Arc::new(c),
+        Err(e) => return vec![format!("mt open {e}")],
+    };
+    let mut out = vec![];
+    for (p, i) in addrs {
+        let addr = jbk::ContentAddress::new(jbk::PackId::from(*p), jbk::ContentIdx::from(*i));
+        let barrier = std::sync::Arc::new(std::sync::Barrier::new(threads));
+        let hs: Vec<_> = (0..threads)
+            .map(|_| {
+                let (c, b) = (container.clone(), barrier.clone());
+                std::thread::spawn(move || {
+                    b.wait();
+                    content_obs(&c, addr)
+                })
+            })
+            .collect();
+        let rs: Vec<String> = hs.into_iter().map(|h| h.join().unwrap_or_else(|_| "PANIC".to_string())).collect();
+        let same = rs.iter().all(|r| r == &rs[0]);
+        out.push(format!("mt c{}:{} {} {}", p, i, if same { "same" } else { "DIFFER" }, rs[0]));
+    }
+    out
+}
